@@ -288,9 +288,11 @@ type RelationService struct {
 
 func (rs *RelationService) StartTxn() {
 	rs.fs.lockShared()
+	verifPoint("txn.begin", 0)
 }
 
 func (rs *RelationService) EndTxn() {
+	verifPoint("txn.end", 0)
 	rs.fs.unlockShared()
 }
 
